@@ -370,3 +370,43 @@ func FaultJobs(rng *rand.Rand, thorough bool) []FaultJob {
 	}
 	return out
 }
+
+// MarkerWriteUnderMutex marks the findings of the sessions below.
+const MarkerWriteUnderMutex = "mutex-held-across-blocking-write"
+
+// BackpressureSessions are deterministic witnesses of one hazard: client.sendCBOR writes to the
+// client-to-server stream while holding the client mutex. On an unbuffered transport that write lasts
+// until the server reads, and the library's own server stops reading while it cannot get rid of its
+// reports (its read loop blocks on the full workDone channel, capacity 3, while its report writer
+// waits for the client to read). Here N Executes each pass a signalsToStep channel with one signal
+// already queued; Execute starts the goroutine that forwards the signal before it registers the run,
+// and the registration is held back (DelayFn), so all N signals reach the server before any
+// work-start and each draws an "unknown step with run ID" report. With N >= 6: report 1 is being
+// written (nobody reads: no read loop yet), reports 2-4 sit in the queue, the server's read loop
+// blocks on report 5 - and the sixth forwarder blocks in its write HOLDING THE CLIENT MUTEX, which
+// every Execute then needs to register. Nothing moves again.
+func BackpressureSessions() []Session {
+	var out []Session
+	mk := func(name string, n, pre int) Session {
+		var d []DOp
+		var sv []SOp
+		for i := 1; i <= n; i++ {
+			d = append(d, DOp{Op: "exec", R: run(i), To: true, Pre: pre})
+			sv = append(sv, SOp{Op: "expectws", R: run(i)})
+		}
+		for i := 1; i <= n; i++ {
+			sv = append(sv, SOp{Op: "done", R: run(i), X: i})
+		}
+		d = append(d, DOp{Op: "joinall"}, DOp{Op: "close"})
+		sv = append(sv, SOp{Op: "expectdonelong"})
+		ss := hs(name, 3, d, sv)
+		ss.Backpressure = 3
+		ss.DelayFn = "prepareResultChannels"
+		ss.DelayMs = 100
+		ss.Marker = MarkerWriteUnderMutex
+		return ss
+	}
+	out = append(out, mk("backpressure-6x1", 6, 1))
+	out = append(out, mk("backpressure-3x2", 3, 2))
+	return out
+}
